@@ -37,6 +37,7 @@ def gen_opts(rng, tier):
 
 def gen(rng, i, tier):
     spec = gen_system(rng, tier)
+    spec = _mux_layout(rng, spec)
     tight = rng.random() < 0.4
     if rng.random() < 0.15:
         spec = G.scale_currents(spec, 10 ** rng.uniform(-6, 5))  # uA-class ... kA-class systems
@@ -153,3 +154,14 @@ def _short(spec):
 
 def finish(ctx):
     _rows.repo_tests_under_monitor(ctx, ACCEPT)
+
+
+def _mux_layout(rng, spec):
+    """One case in five: a mux-centred layout (inputs below other components, per-input rs, tabulated ig, random
+    live/dead input pattern) shared with C05, so that mux rows running from a NON-first input are judged here too."""
+    if rng.random() >= 0.2:
+        return spec
+    from . import c05
+
+    lay = c05.layout(rng, rng.choice([2, 3, 4]))
+    return c05.realise(lay, [rng.choice([0, 1]) for _ in range(lay["k"])])
